@@ -1,6 +1,6 @@
 """C08 - query strings parse to one well-defined mapping; typed getters never misreport."""
 PROP = 'C08'
-LEAN_MODULES = ['FalconModel.QueryProofs', 'FalconModel.QueryRef', 'FalconModel.UriEncodeProofs']
+LEAN_MODULES = ['FalconModel.QueryProofs', 'FalconModel.QueryRef', 'FalconModel.UriEncodeProofs', 'FalconModel.GettersProofs', 'FalconModel.ToQueryStrProofs']
 DRIVERS = ['qsdriver']
 THEOREMS = [
     # the parser model equals the reference reading for EVERY query string and option setting (FalconModel/QueryRef.lean)
@@ -13,6 +13,18 @@ THEOREMS = [
     'Probe.decodeImpl_eq_ref', 'Probe.decode_encode',
     # to_query_str renders with encode_value; its round trip through decode, and the output alphabet (no & = , +)
     'Uri.decode_encode_value', 'Uri.encodeValue_grammar', 'Uri.encodeWith_charset',
+    # the typed getters get_param / _as_int / _as_bool / _as_list (FalconModel/Getters.lean, GettersProofs.lean), for ALL mappings and arguments
+    'Gt.getParam_eq_spec', 'Gt.getInt_eq_spec', 'Gt.getBool_eq_spec', 'Gt.getList_eq_getListT',
+    'Gt.getter_last_occurrence', 'Gt.getInt_bounds_exact', 'Gt.getInt_value_iff', 'Gt.getInt_not_int', 'Gt.inBounds_iff',
+    'Gt.getter_required_default_store', 'Gt.doStore_effect', 'Gt.storeGet_set_same', 'Gt.storeGet_set_other', 'Gt.storeSet_others', 'Gt.storeSet_keys',
+    'Gt.getter_only_documented_outcomes', 'Gt.f06_witness', 'Gt.getBool_table_exact', 'Gt.getBool_found', 'Gt.tables_disjoint',
+    'Gt.mapT_eq_some', 'Gt.mapT_eq_none',
+    # ... composed with parseQS_eq_ref: statements about the raw query string
+    'Gt.lastValue_parseQS', 'Gt.lookup_parseQS_isSome', 'Gt.getParam_of_query', 'Gt.getInt_of_query', 'Gt.getBool_of_query', 'Gt.getListT_of_query', 'Gt.getList_of_query',
+    # to_query_str (FalconModel/Getters.lean: toQueryStr) and the general round trip (ToQueryStrProofs.lean)
+    'Gt.toQueryStr_eq', 'Gt.toQueryStr_prefix', 'Gt.splitOn_joinAmp', 'Gt.splitOn_joinComma', 'Gt.fieldEntry_pair', 'Gt.fieldEntry_csv', 'Gt.refOf_entries',
+    'Gt.parse_toQueryStr',
+    'Gt.wf_witness_both_empty', 'Gt.wf_witness_blank_dropped', 'Gt.wf_witness_short_list', 'Gt.wf_witness_empty_list', 'Gt.wf_witness_cdl_without_csv', 'Gt.wf_witness_same_name',
 ]
 STATEMENTS = {
     'Qs.parseQS_eq_ref': 'for every byte string and both option flags the parser model (whole-string is_encoded flag, accumulate-by-lookup loop) equals parseRef: fields split on "&", each split at the first "=", blank rule, names/values decoded, CSV split on literal commas only when enabled, names in order of first occurrence, a name is scalar iff it occurs once and not as a CSV list, otherwise all its values in order',
@@ -24,9 +36,28 @@ STATEMENTS = {
     'Qs.partitionEq_first': 'partition("=") splits at the first "="',
     'Probe.decodeImpl_eq_ref': 'all three code paths of uri.decode compute the left-to-right reference decoder',
     'Uri.decode_encode_value': 'decode(encode_value(s)) = s',
+    'Gt.getParam_eq_spec': 'get_param as transcribed (name in params, params[name] != [], list -> [-1], store, required/default) equals the specification "take the LAST value the mapping holds for the name; none -> default / HTTPMissingParam; else return it and set store[name]" - for every mapping and all arguments; the IndexError exit of param[-1] is unreachable',
+    'Gt.getInt_eq_spec': 'get_param_as_int (int() of the last value inside try/except ValueError, then min check, then max check, in the order of the code) equals the specification with the conversion "int(s) and min <= v <= max"',
+    'Gt.getBool_eq_spec': 'get_param_as_bool equals the specification with the documented table conversion',
+    'Gt.getter_last_occurrence': 'whatever the mapping: if the values held for the name are pre ++ [s], get_param returns s and get_param_as_int / _as_bool behave exactly as on the one-entry mapping {name: s} - the last occurrence alone decides',
+    'Gt.getInt_bounds_exact': 'when the last value reads as the integer v: the result is v (stored under the name) if min_value <= v <= max_value, each bound counting iff it is not None (0 is a bound), and HTTPInvalidParam with the store untouched otherwise',
+    'Gt.getInt_value_iff': 'get_param_as_int returns w  iff  w is the integer read from the last value and every given bound holds (m <= v for min_value = m, v <= m for max_value = m)',
+    'Gt.getInt_not_int': 'a last value int() rejects gives HTTPInvalidParam whatever the bounds',
+    'Gt.getter_required_default_store': 'for get_param, _as_int, _as_bool (found = the name has at least one value) and _as_list with or without transform (found = the name is in the mapping): missing+required -> HTTPMissingParam, missing+not required -> the default, both with the store untouched; found -> either HTTPInvalidParam with the store untouched or a value v with exactly the effect store[name] = v (StoreEffect: store None stays None; otherwise get(name) = v, every other key keeps its value, the other entries keep their order, the key list is unchanged or has name appended)',
+    'Gt.getter_only_documented_outcomes': 'no getter call, on any mapping with any arguments, escapes with IndexError: it returns a value, the default, or raises one of the two 400 errors, and the store is either untouched or received exactly the returned value; a name whose value is the EMPTY list (the F06 mapping of "?a=,") is missing for the scalar getters (default / HTTPMissingParam) and [] for get_param_as_list',
+    'Gt.f06_witness': 'regression witness: without the guard params[name] != [] (code before fix 208c75d) get_param on {"a": []} escapes with IndexError',
+    'Gt.getBool_table_exact': 'the boolean conversion gives True exactly for true/True/t/yes/y/1/on (and the empty string iff blank_as_true), False exactly for false/False/f/no/n/0/off (and the empty string iff not blank_as_true), and rejects everything else',
+    'Gt.lastValue_parseQS': 'on the mapping parsed from ANY query string the value the scalar getters use is the last of all values the query string gives for the name (fields in order, CSV elements in order)',
+    'Gt.getInt_of_query': 'end to end from the raw bytes: get_param_as_int on parse_query_string(qs) = int() of the last value the reference reading of qs gives for the name, bounds exact, no value -> default / HTTPMissingParam',
+    'Gt.getParam_of_query': 'end to end: get_param on parse_query_string(qs) returns the last value the reference reading gives for the name',
+    'Gt.getBool_of_query': 'end to end: get_param_as_bool on parse_query_string(qs) = table conversion of the last value',
+    'Gt.getListT_of_query': 'end to end: get_param_as_list on parse_query_string(qs): if some field carries the name, ALL its values in query-string order, transformed element-wise (one ValueError rejects the parameter)',
+    'Gt.parse_toQueryStr': 'for every mapping m of names to strings / lists of strings with WFmap (names distinct; no pair with name and value both empty and no empty value when blanks are dropped; lists have >= 2 elements; comma_delimited_lists only with auto_parse_qs_csv): parse_query_string(to_query_str(m, cdl, prefix=False), kb, csv) = m, same order, scalars as scalars, lists as lists',
+    'Gt.toQueryStr_prefix': 'prefix=True only puts "?" in front',
+    'Gt.wf_witness_both_empty': 'each side condition of the round trip is needed: six concrete mappings violating exactly one of them do not come back (wf_witness_*)',
 }
 TRUSTED = [
-    'int(), float(), uuid.UUID, datetime.strptime, json.loads as the reference conversions of the typed getters (the same CPython functions on the reference side)',
+    'float(), uuid.UUID, datetime.strptime, json.loads as the reference conversions of the typed getters that are not modelled (the same CPython functions on the reference side); int() is modelled (Gt.pyInt) and compared with the real int() on every code point',
     'urllib.parse.unquote_to_bytes and str.split/partition inside the independent reference parser',
     'falcon.testing.create_environ / create_scope as producers of WSGI environ / ASGI scope (QUERY_STRING passed through; scope query_string = UTF-8 bytes)',
 ]
@@ -36,16 +67,23 @@ ASSUMPTIONS = [
     'transform callables given to get_param_as_list raise only ValueError',
     'to_query_str round trip: string values, lists with >= 2 elements, no (name, value) pair with both empty; comma_delimited_lists paired with auto_parse_qs_csv; keep_blank on, or no empty value',
     'the Cython twin falcon/cyutil/uri.pyx cannot be rebuilt offline and is not exercised',
+    'Gt.pyInt models int(str) for ALL code points with the Unicode 15.0 decimal-digit table and sys.int_max_str_digits = 4300 of the running CPython 3.12 (both compared with unicodedata / sys on every run)',
+    'req._params is a dict, modelled as an association list read with first-match lookup (the parser never repeats a key: Qs.parseQS_keys_nodup); store is a dict',
 ]
 RULE = ('ALL strings of length <= 4 (quick) / <= 5 (thorough) over {& = , + % 4 a g NUL e-acute} (11 111 / 111 111 strings) x the 4 combinations of keep_blank / csv, '
         'each parsed three ways (uri.parse_query_string, falcon.Request via create_environ, falcon.asgi.Request via create_scope with req_options) and compared with the '
         'Lean parseQS and with the reference parser; plus random longer strings over the alphabet and escape fragments; plus structured query strings '
         '(1-6 fields, repeated names, typed values for int/float/bool/uuid/date/datetime/json/list, CSV lists with blank elements, randomly percent-encoded). '
-        'On every request object (for the length-5 strings: on one of the two request classes, alternating) every typed getter is called for every name present and one absent name with required/default/store/min/max variations. '
-        'Random dictionaries go through to_query_str and back (both list styles, direct and via request objects). '
+        'On every request object (for the length-5 strings: on one of the two request classes, alternating) every typed getter is called for every name present and one absent name with required/default/store/min/max variations '
+        '(store: None, empty, or pre-filled with other keys and/or the name itself); the calls of get_param/_as_int/_as_bool/_as_list are also put to the Lean getter model (all of them, one half on the exhaustive strings) comparing result and store contents in order. '
+        'Random dictionaries go through to_query_str and back (both list styles, direct and via request objects) and through the Lean toQueryStr; '
+        'int() is compared with Gt.pyInt on every code point alone and next to digits/signs (quick: all below U+3100, around every digit block, a sample of the rest) and on ALL strings of length <= 4/5 over {0 7 _ + - space \\x1c NBSP Arabic-3 x EM-SPACE}. '
         'non-trivial = the reference mapping is non-empty; distinct = distinct (query string, options, interface)')
-PARTIAL = ('Proved for all inputs: parser model = reference reading (parseQS_eq_ref), decode = reference (all code paths), decode(encode_value) = id, single-field laws. '
-           'The bytes->str step (UTF-8 with replacement, Utf8 model) and the typed getters are not proved: they are tied by the exhaustive/random correspondence and judged by the oracle.')
+PARTIAL = ('Proved for all inputs: parser model = reference reading (parseQS_eq_ref), decode = reference (all code paths), decode(encode_value) = id; the getters get_param / _as_int / _as_bool / _as_list '
+           '(last occurrence, exact bounds, required/default/store, only documented outcomes, boolean table) for all mappings and end to end from the raw query string; the general to_query_str round trip. '
+           'NOT proved (tied by the correspondence / judged by the oracle only): the bytes->str step (UTF-8 with replacement, Utf8 model) has no independent specification; '
+           'get_param_as_float (float() needs correctly rounded decimal->binary64, not modelled), _as_uuid, _as_datetime, _as_date, _as_json (library parsers); '
+           'to_query_str for non-string values (str(v), True/False) and the str -> UTF-8 encoding step (the round trip is stated on UTF-8 bytes, names distinct after decoding).')
 JOBS = {'quick': 4, 'thorough': 16}
 
 ALPHABET = ['&', '=', ',', '+', '%', '4', 'a', 'g', '\x00', 'é']
@@ -607,11 +645,13 @@ def run(ctx):
     sessg.finish()
 
 
-LEVEL_TEXT = ('Machine-checked proofs (Lean 4) for the decoder under the parser (all code paths of uri.decode = reference decoder; decode(encode_value(s)) = s) and for the '
-              'parse_query_string model the single-field laws (split at the first "=", blank rule, an encoded comma never splits, one-pair to_query_str round trip). '
-              'Parser = reference on all inputs is carried by a complete enumeration of every string up to length 4/5 over a 10-letter alphabet x 4 option settings, parsed by '
-              'uri.parse_query_string, falcon.Request and falcon.asgi.Request, compared with the compiled Lean model (correspondence) and with an independent reference parser (oracle). '
-              'Typed getters and to_query_str are checked against reference conversions written from the statement.')
-LEVEL_NOTE = ('Partial proof: no Lean theorem for parseQS = reference on all inputs and no Lean model of the typed getters; these parts rest on exhaustive-bounded and random checking. '
-              'Trusted: int/float/UUID/strptime/json as reference conversions.')
-TECHNIQUE = 'Lean 4 lemmas on the parser model + exhaustive-bounded differential correspondence (model vs code, 3 entry points) + independent reference-parser and getter oracle'
+LEVEL_TEXT = ('Machine-checked proofs (Lean 4), all for unbounded inputs: the parse_query_string model equals the form-urlencoded reference reading for every byte string and option setting '
+              '(parseQS_eq_ref) on top of the proved decoder (all code paths of uri.decode = reference; decode(encode_value(s)) = s); the typed getters get_param, get_param_as_int (with a model of int() on all code points), '
+              'get_param_as_bool and get_param_as_list are transcribed statement by statement and proved, for every mapping and all arguments, to use the last occurrence, to honour min/max exactly (0 included), '
+              'to follow required/default/store exactly (store[name] = value and nothing else), to have only the documented outcomes (the F06 IndexError exit is unreachable), and to read booleans by the documented table - '
+              'also composed with parseQS_eq_ref into statements about the raw query string; to_query_str is modelled and parse(to_query_str(m)) = m is proved for every well-formed mapping, with a witness that each side condition is needed. '
+              'Model = code is checked on every run by a complete enumeration of every string up to length 4/5 over a 10-letter alphabet x 4 option settings through uri.parse_query_string, falcon.Request and falcon.asgi.Request, '
+              'by about a million getter calls (result and store), by int() on every code point and by to_query_str renderings, all compared with the compiled Lean model (correspondence), and independently with a reference parser and reference conversions (oracle).')
+LEVEL_NOTE = ('Not proved: get_param_as_float / _as_uuid / _as_datetime / _as_date / _as_json (float() and library parsers are not modelled; checked against the same CPython functions by the oracle) and the UTF-8 replacement decoder has no separate specification. '
+              'Trusted: float/UUID/strptime/json as reference conversions; the Unicode digit table and the int digit limit are those of the running interpreter.')
+TECHNIQUE = 'Lean 4 proofs (parser = reference, typed getters, to_query_str round trip; all unbounded) + exhaustive-bounded differential correspondence (model vs code, 3 entry points, getters with store, int() per code point) + independent reference-parser and getter oracle'
